@@ -298,7 +298,7 @@ def main(argv):
                 replay_generic(ctx, a.replay)
         else:
             mod.run(ctx)
-        rc = ctx.finish(getattr(mod, "LEVEL", "model_checking"), write_evidence=not a.replay)
+        rc = ctx.finish(getattr(mod, "LEVEL", "model_checking"), write_evidence=not a.replay and not os.environ.get("VERIF_KEEP_EVIDENCE"))
     except Machinery as e:
         print("MACHINERY-ERROR property=%s: %s" % (prop, e), file=sys.stderr)
         rc = 2
